@@ -21,7 +21,8 @@ func init() {
 			"D3 distribution shape: Fork hands each value read to every output through a covering traversal from Start; Split/Join move exactly one value per successful read and follow every GetNext of the cyclic iterator by the wrap check (!HasNext -> ToStart) before the next iteration; " +
 			"D4 the loops of the three helpers are in a terminating or blocking-read loop form." +
 			" Also: a backward traversal that closes the outputs starts from ToEnd; the rotation over the outputs advances once per value; a preloaded input delivers every value (token balance at birth)." +
-			" Round 7: the goroutine does not ask a caller-owned sequence operand for anything after the helper returned; a goroutine started through a private starter is bound through it.",
+			" Round 7: the goroutine does not ask a caller-owned sequence operand for anything after the helper returned; a goroutine started through a private starter is bound through it." +
+			" Rounds 8-9: a local channel of fixed capacity is not filled by its maker with a data-dependent number of values; no 8 or 16 bit counter is stepped in an unbounded loop; a goroutine started through a method of a private struct is bound through the struct's fields.",
 		NotDecided: "order and conservation across schedules, termination of the helpers (needs readers to drain the outputs), absence of delivery after closure.",
 		Run:        runC06,
 	})
